@@ -27,7 +27,7 @@ ASSUMPTIONS = ['the reference model shares CPython list/dict/Decimal with the sy
 REAL = ['smartquery.* (lexer, PLY parser, evaluator, builtins)', 'decimal', 'copy']
 STUB = ['host (owner of the names mapping)']
 REACH_PROBES = ('failed_then_judged', 'lang_error', 'other_error', 'nested_target', 'equal_typed_key_pair',
-                'negative_index', 'fractional_index', 'write_then_read_same_key', 'repeated_source', 'cache_hit')
+                'negative_index', 'fractional_index', 'write_then_read_same_key', 'repeated_source', 'cache_hit', 'inner_blank_sibling_source')
 
 CONTAINERS = ['l', 'd', 'n', 'e', 'm']
 
@@ -233,6 +233,31 @@ def _spec_of(v, depth=0):
     return {'unspellable': 1}
 
 
+BLANK_FAMILIES = [['a b', 'a  b', 'a\tb'], ['x y', 'x  y']]
+
+
+def _blank_sibling(t, r):
+    """A copy of program t in which ONE string literal is replaced by a sibling that differs only in its inner blanks
+    (None if t has no such literal): rendered with the same style the two texts differ in nothing else."""
+    import copy
+    t2 = copy.deepcopy(t)
+    found = []
+
+    def walk(x):
+        if isinstance(x, list):
+            if len(x) == 2 and x[0] == 'str' and isinstance(x[1], str) and any(x[1] in f for f in BLANK_FAMILIES):
+                found.append(x)
+            for y in x:
+                walk(y)
+    walk(t2)
+    if not found:
+        return None
+    leaf = r.choice(found)
+    fam = [f for f in BLANK_FAMILIES if leaf[1] in f][0]
+    leaf[1] = r.choice([v for v in fam if v != leaf[1]])
+    return t2
+
+
 def generate(seed, tier):
     S = Streams(seed)
     rc, ro = S['config'], S['ops']
@@ -246,6 +271,12 @@ def generate(seed, tier):
             prev = ro.choice(ops)       # the very same source text again (a cached tree is evaluated twice)
             prog, probes = prev['prog'], ['repeated_source']
             op = {'op': 'eval', 'prog': prog, 'style': prev['style'], 'probes': probes}
+            if ro.random() < 0.5:
+                sib = _blank_sibling(prog, ro)
+                if sib is not None:
+                    # ... or its sibling: the same text except for the blanks INSIDE one string literal
+                    op = {'op': 'eval', 'prog': sib, 'style': prev['style'], 'probes': ['inner_blank_sibling_source']}
+                    prog = sib
         else:
             prog, probes = _gen_op(ro, model, last_write)
             style = gen.style(S['render'])
